@@ -83,8 +83,14 @@ static bool gen_c08(uint64_t seed, const std::string &tier, uint64_t i, Plan &p)
   p.knobs.set("oracles", oracle_list({"c08"}));
   Json ctl = Json::obj();
   int rc = (int)r.below(5);
+  std::vector<std::string> hot = {"MAIL FROM:<s@x.example>", "RCPT TO:<u@l.example>", "RCPT TO:<u@sub.l.example>", "RCPT TO:<u@more.example>", "RCPT TO:<u@evil.example>"};
   if (rc != 0) { Json a = Json::arr(); a.push("l.example"); if (r.chance(0.5)) a.push(".l.example"); if (r.chance(0.3)) a.push("Example"); if (r.chance(0.3)) a.push("sim.example"); if (r.chance(0.4)) a.push(r.chance(0.5) ? "zone-9.example" : "Zone-9.EXAMPLE"); if (r.chance(0.3)) a.push("caf\xe9.example"); ctl.set("rcpthosts", a); }
-  if (rc >= 3) { Json a = Json::arr(); a.push("more.example"); if (r.chance(0.5)) a.push(".more.example"); if (r.chance(0.4)) a.push(r.chance(0.5) ? ".zz.example" : ".ZZ.example"); if (r.chance(0.3)) a.push(".\xff\x80.example"); ctl.set("morercpthosts", a); }
+  if (rc >= 3) { Json a = Json::arr(); a.push("more.example"); if (r.chance(0.5)) a.push(".more.example"); if (r.chance(0.4)) a.push(r.chance(0.5) ? ".zz.example" : ".ZZ.example"); if (r.chance(0.3)) a.push(".\xff\x80.example");
+    // two names that fall into the same one of the database's 256 hash tables, both with their home slot at its end, so that the writer
+    // wraps one of them round to slot 0 (and no other name of this file shares the table): both must be found
+    if (r.chance(0.35)) { static const std::vector<std::pair<std::string, std::string>> wrap = {{"w8.example", "w181.example"}, {"w135.example", "w250.example"}, {"w137.example", "w252.example"}, {"w130.example", "w255.example"}, {"w132.example", "w257.example"}, {"w123.example", "w264.example"}};
+      auto pr = r.pick(wrap); a.push(pr.first); a.push(pr.second); hot.push_back("RCPT TO:<u@" + pr.first + ">"); hot.push_back("RCPT TO:<u@" + pr.second + ">"); hot.push_back("RCPT TO:<u@" + pr.second + ">"); hot.push_back("RCPT TO:<u@" + pr.first + ">"); }
+    ctl.set("morercpthosts", a); }
   if (r.chance(0.5)) { Json a = Json::arr(); a.push("bad@sender.example"); a.push("@bad.example"); if (r.chance(0.3)) a.push("Zed@zone-9.example"); ctl.set("badmailfrom", a); }
   if (r.chance(0.4)) ctl.set("localiphost", r.pick(std::vector<std::string>{"l.example", "other.example", "a-rather-long-name-for-this-very-host.sub.l.example", "a-rather-long-name-for-this-very-host.sub.l.example"}));
   p.knobs.set("control", ctl);
@@ -103,7 +109,7 @@ static bool gen_c08(uint64_t seed, const std::string &tier, uint64_t i, Plan &p)
     else if (c == 15) line = r.pick(std::vector<std::string>{"NOOP", "NOOP arg", "VRFY x", "HELP", "help me"});
     else if (c == 16) line = r.pick(std::vector<std::string>{"XYZZY", "", " ", "MAILFROM:<a@b>", "RCPTTO:<a@b>", "DATA x", "data"});
     else if (c == 17 && q > n / 2) line = "QUIT";
-    else line = r.pick(std::vector<std::string>{"MAIL FROM:<s@x.example>", "RCPT TO:<u@l.example>", "RCPT TO:<u@sub.l.example>", "RCPT TO:<u@more.example>", "RCPT TO:<u@evil.example>"});
+    else line = r.pick(hot);
     all += line + eol;
   }
   if (r.chance(0.7)) all += "QUIT\r\n";
